@@ -4,6 +4,7 @@
 package gocql
 
 import (
+	"errors"
 	"fmt"
 	"net"
 	"sync/atomic"
@@ -328,3 +329,25 @@ func VerifRecordAttempt(q ExecutableQuery, host *HostInfo) {
 	now := time.Now()
 	q.attempt("", now, now, &Iter{}, host)
 }
+
+// VerifRefreshDebouncer is the ring-refresh debouncer with a caller-chosen interval and refresh
+// function, for monitors that drive it at rates the one-second production interval never reaches.
+type VerifRefreshDebouncer struct{ d *refreshDebouncer }
+
+func VerifNewRefreshDebouncer(interval time.Duration, refreshFn func() error) *VerifRefreshDebouncer {
+	return &VerifRefreshDebouncer{d: newRefreshDebouncer(interval, refreshFn)}
+}
+
+// Debounce asks for a refresh after the interval.
+func (v *VerifRefreshDebouncer) Debounce() { v.d.debounce() }
+
+// RefreshNow asks for an immediate refresh and waits for its result (what Session.refreshRing does).
+func (v *VerifRefreshDebouncer) RefreshNow() error {
+	err, ok := <-v.d.refreshNow()
+	if !ok {
+		return errors.New("could not refresh ring because stop was requested")
+	}
+	return err
+}
+
+func (v *VerifRefreshDebouncer) Stop() { v.d.stop() }
